@@ -4,6 +4,7 @@
 package obs
 
 import (
+	"bytes"
 	"errors"
 	"fmt"
 	"hash/fnv"
@@ -69,6 +70,7 @@ type Source struct {
 	DrainBuf       int    // size of the reads used to drain the returned stream (0: 32 KiB + 7)
 	DrainCopyAfter int    // -1: Read to the end; k >= 0: Read k bytes, then io.Copy the rest
 	Deliv          int    // bytes handed out in total, by whatever method (a rewound source has Pos < Deliv)
+	TailFF         bool   // the virtual tail is a run of 0xFF bytes (JPEG fill bytes) instead of position-coded ones
 }
 
 func NewSource(data []byte, cut int, fail error, s Sched) *Source {
@@ -88,6 +90,9 @@ func TailByte(i int) byte { return byte((i*131 + 7) % 251) }
 func (s *Source) at(i int) byte {
 	if i < len(s.Data) {
 		return s.Data[i]
+	}
+	if s.TailFF {
+		return 0xFF
 	}
 	return TailByte(i - len(s.Data))
 }
@@ -394,6 +399,25 @@ func Run(loader string, src *Source, drain bool, measure bool) (o Obs) {
 			o.ICC, o.ICCLen, o.ICCHash, o.iccData = "data", len(data), hashBytes(data), data
 		default:
 			o.ICC = "none"
+		}
+		// the two accessors do not disturb one another: asking for the parsed profile (whether or not
+		// the bytes parse) leaves the raw bytes and their error what they were
+		func() {
+			defer func() { recover() }()
+			md.ICCProfile()
+		}()
+		data2, ierr2 := md.ICCProfileData()
+		if (ierr2 == nil) != (ierr == nil) || !bytes.Equal(data2, data) {
+			o.ICC = "mutated-after-later-loads"
+			o.ICCErr = "ICCProfileData() differs after ICCProfile() was called on the same value"
+		}
+		// the bytes handed out are the caller's: writing to them before the stream is read does not
+		// change what the stream replays (the hash and the observation's copy are taken first)
+		if drain && stream != nil && len(data) > 0 {
+			o.iccData = append([]byte(nil), data...)
+			for i := range data {
+				data[i] ^= 0xA5
+			}
 		}
 	}
 	o.StreamNil = stream == nil
